@@ -25,11 +25,11 @@ ASSUMPTIONS = ["'plus costs' is the whole call's costs (closing a sub-strategy r
 
 def plan(tier):
     q = tier == "quick"
-    return [dict(unit="rebalance", n=1500 if q else 40000, builds=["py", "so"], case_timeout=60),
-            dict(unit="sub", n=300 if q else 8000, builds=["py", "so"], case_timeout=60),
-            dict(unit="rot", n=300 if q else 8000, builds=["py", "so"], case_timeout=60),
-            dict(unit="inrun", n=200 if q else 5000, builds=["py", "so"], case_timeout=180),
-            dict(unit="fi", n=250 if q else 6000, builds=["py", "so"], case_timeout=120)]
+    return [dict(unit="rebalance", n=1500 if q else 16000, builds=["py", "so"], case_timeout=60),
+            dict(unit="sub", n=300 if q else 3200, builds=["py", "so"], case_timeout=60),
+            dict(unit="rot", n=300 if q else 3200, builds=["py", "so"], case_timeout=60),
+            dict(unit="inrun", n=200 if q else 2000, builds=["py", "so"], case_timeout=180),
+            dict(unit="fi", n=250 if q else 2400, builds=["py", "so"], case_timeout=120)]
 
 
 def floors(tier):
